@@ -146,7 +146,7 @@ def oracle_run_events(args):
             shutil.rmtree(tmp, ignore_errors=True)
 
 
-ORACLES = {"hop_rule": oracle_hop_rule, "run_events": oracle_run_events}
+ORACLES = {"whole_run": rc.oracle_whole_run, "hop_rule": oracle_hop_rule, "run_events": oracle_run_events}
 
 
 def run(ctx):
